@@ -16,6 +16,9 @@ def dispatch (op : String) (args : List Sx) : String :=
   | "jenc" => opJEnc args
   | "jdec" => opJDec args
   | "jparse" => opJParse args
+  | "gser" => opGser args
+  | "gserread" => opGserRead args
+  | "gserrt" => opGserRt args
   | "project" => opProject args
   | "c07" => opC07 args
   | "rtder" => opRtDer args
